@@ -603,13 +603,15 @@ def run(ctx):
                     else:
                         spec = {"A": "structured:12", "B": "structured:4", "Bmax": 8, "Amax": 120}
                 else:
+                    # (all 4096^2 pairs of GF(2^12) cost hours in pure Python: every element against a
+                    # structured set of 300 right operands instead; every unary entry is complete)
                     if p == 2:
-                        spec = ({"A": "all", "B": "all"} if fam == "opt"
-                                else {"A": "all", "B": "structured:20", "Bmax": 60})
+                        spec = ({"A": "all", "B": "structured:200", "Bmax": 300} if fam == "opt"
+                                else {"A": "all", "B": "structured:20", "Bmax": 30})
                     elif p == 3:
-                        spec = {"A": "structured:3000", "B": "structured:10", "Bmax": 60}
+                        spec = {"A": "structured:1500", "B": "structured:10", "Bmax": 40}
                     else:
-                        spec = {"A": "structured:500", "B": "structured:10", "Bmax": 40}
+                        spec = {"A": "structured:300", "B": "structured:10", "Bmax": 30}
                 spec.update({"fam": fam, "p": p, "mc": list(mc), "Tcap": 5})
                 tasks.append(("field", spec))
     ctx.bounds["fq12_moduli"] = {str(p): [list(m) for m in v] for p, v in d12.items()}
